@@ -228,7 +228,7 @@ Proof. exact cparse_total_res. Qed.
 Print Assumptions c11_parse_total.
 
 Theorem c11_parse_fuel_bound : forall fs, fs_names_ok fs -> forall fuel p visited,
-  NoDup visited -> incl visited (stems fs) -> (length fs - length visited < fuel)%nat ->
+  NoDup (map fst visited) -> incl (map fst visited) (stems fs) -> (length fs - length visited < fuel)%nat ->
   graceful (pres_res (cparse fuel fs p visited)).
 Proof. exact cparse_fuel_bound. Qed.
 Print Assumptions c11_parse_fuel_bound.
@@ -334,24 +334,120 @@ Theorem c11_validated_dup_names_refuted :
 Proof. exact dup_names_pinned_refuted. Qed.
 Print Assumptions c11_validated_dup_names_refuted.
 
-(** every constant value fits its declared type: FALSE of the code as it is (finding C11-K13):
-    const list<i32> x = 5, const i32 y = "hello", const list<i32> z = [nope] pass validation *)
-Theorem c11_validated_constants_fit_refuted :
-  cvalidate 10 w_consts [] = ROk
-  /\ forallb (fun c => shape_fits (c_type c) (c_value c)) (firstn 2 (fr_constants w_consts)) = false
-  /\ check_identifier w_consts [] (T "nope") <> ROk.
-Proof. exact constants_fit_refuted. Qed.
-Print Assumptions c11_validated_constants_fit_refuted.
+(** every constant value and every default value (of a field of a struct, union or exception, of
+    an argument, of a declared exception) of a file which passed validation conforms to its
+    declared type.  [conforms home sc t v] (Proofs/CompilerValidateProofs.v, an inductive
+    predicate): with the typedefs of [t] followed, each in the file which declares it, down to a
+    type [t'] read in the scope [sc'] -- a string literal for string or binary; a bool literal for
+    bool; a double literal for double; an integer literal for i8/byte, i16, i32 within the range of
+    the type, for i64 and for double, or for an enum one of whose values has that number; a list
+    literal for a list or set whose elements conform to the element type; a map literal for a map
+    whose keys and values conform to the key and value types; for a struct, union or exception a map
+    literal whose keys are strings or identifiers and in which the value under the name of a field
+    conforms to the type of that field read in the file which declares the struct; an identifier
+    which names a constant (of the file or of an include) whose declared type, typedefs followed,
+    is of the same kind (any integer type for an integer type, an integer or double for a double,
+    string or binary, the same container, an enum or a struct of the same name), or a value of the
+    enum [t'] names.  (Was known finding C11-K13, repaired.) *)
+Theorem c11_validated_constants_fit : forall fuel f incs,
+  cvalidate fuel f incs = ROk ->
+  let home : vscope := (f, incs) in
+  (forall c, In c (fr_constants f) -> conforms home home (c_type c) (c_value c))
+  /\ (forall s fd v, In s (fr_structs f ++ fr_unions f ++ fr_exceptions f) -> In fd (s_fields s) ->
+                     f_default fd = Some v -> conforms home home (f_type fd) v)
+  /\ (forall sv m fd v, In sv (fr_services f) -> In m (sv_methods sv) -> In fd (m_args m ++ m_throws m) ->
+                        f_default fd = Some v -> conforms home home (f_type fd) v).
+Proof. exact validated_constants_fit. Qed.
+Print Assumptions c11_validated_constants_fit.
 
-(** circular includes are detected by bare file name: a file that includes a DIFFERENT file of
-    the same name (no cycle; the included file parses on its own) is rejected as circular
-    (finding C11-K14) *)
-Theorem c11_include_same_name_refuted :
+(** the checker decides [conforms] soundly for one value in any scope (no hypothesis on the fuel:
+    out of fuel is not acceptance) *)
+Theorem c11_check_value_sound : forall fuel home what v sc t,
+  check_value fuel home what sc t v = ROk -> conforms home sc t v.
+Proof. exact check_value_sound. Qed.
+Print Assumptions c11_check_value_sound.
+
+(** the value pass never crashes and never runs out of the stated fuel on a file whose
+    declarations passed validation over validated includes: every typedef chain it follows, in the
+    file or in any file reached through includes, ends within the weight of the tree, and no nil
+    element type is dereferenced *)
+Theorem c11_value_pass_total : forall fuel f incs,
+  file_names_ok f -> incs_wellvalidated incs -> (validate_fuel f incs <= fuel)%nat ->
+  cvalidate_decls fuel f incs = ROk ->
+  graceful (vr_res (check_values fuel f incs)).
+Proof. exact value_pass_total_res. Qed.
+Print Assumptions c11_value_pass_total.
+
+(** the code as it was (finding C11-K13): const list<i32> x = 5, const i32 y = "hello",
+    const list<i32> z = [nope] passed validation; the repaired validation reports each *)
+Theorem c11_validated_constants_fit_pinned_refuted :
+  cvalidate_pinned 10 w_consts [] = ROk
+  /\ forallb (fun c => shape_fits (c_type c) (c_value c)) (firstn 2 (fr_constants w_consts)) = false
+  /\ check_identifier w_consts [] (T "nope") <> ROk
+  /\ cvalidate 10 (only_const 0) [] = RErr (T "Invalid value for constant x: expected list<i32>, got integer 5")
+  /\ cvalidate 10 (only_const 1) [] = RErr (T "Invalid value for constant y: expected i32, got a string")
+  /\ cvalidate 10 (only_const 2) [] = RErr (T "Referenced constant nope not found")
+  /\ cvalidate 10 w_consts [] = RErr (T "Invalid value for constant x: expected list<i32>, got integer 5").
+Proof. exact constants_fit_pinned_refuted. Qed.
+Print Assumptions c11_validated_constants_fit_pinned_refuted.
+
+(** non-vacuity: a two-file program with values of every shape is accepted, and its values conform *)
+Example c11_constants_fit_nonvacuous :
+  match cparse_program vx_fs [T "root.frugal"] with
+  | POk (FTree _ f incs) => cvalidate (validate_fuel f incs) f incs = ROk /\ length (fr_constants f) = 7%nat
+                            /\ values_conform f incs
+  | _ => False
+  end.
+Proof. exact values_example_full. Qed.
+
+(** still FALSE of the code (finding C11-K15): no constant is defined in terms of itself.
+    const i32 a = b, const i32 b = a passes validation (each reference names a constant of the
+    right kind); the generators emit the circular references *)
+Theorem c11_constant_cycle_accepted_refuted :
+  cvalidate 10 w_const_cycle [] = ROk
+  /\ c_value (nth 0 (fr_constants w_const_cycle) (mkconst None [] (ty0 "i32") COther [])) = CIdent (T "b")
+  /\ c_value (nth 1 (fr_constants w_const_cycle) (mkconst None [] (ty0 "i32") COther [])) = CIdent (T "a").
+Proof. exact constant_cycle_accepted_refuted. Qed.
+Print Assumptions c11_constant_cycle_accepted_refuted.
+
+(** include cycles are detected by the cleaned path of the file.  For every file system and every
+    chain of files being parsed: a file whose path is on the chain is reported as a circular
+    include; a file whose path is NOT on the chain but whose name is (a different file of the same
+    name) is reported as a duplicate file name, with the two paths -- never as circular.  (Was known
+    finding C11-K14: cycles were detected by bare file name.) *)
+Theorem c11_include_cycle_by_path : forall fuel fs p visited e name,
+  pfs_get fs p = Some e -> file_stem p = Some name ->
+  (In p (map snd visited) -> cparse (S fuel) fs p visited = PErr (circular_msg visited name))
+  /\ (~ In p (map snd visited) -> In name (map fst visited) ->
+      exists q, In (name, q) visited /\ cparse (S fuel) fs p visited = PErr (duplicate_msg name p q)).
+Proof. exact include_check_by_path. Qed.
+Print Assumptions c11_include_cycle_by_path.
+
+(** x.frugal including sub/x.frugal (a different file, no cycle): the included file parses on its
+    own; the program is rejected because includes and generated code are named after the file name,
+    and the diagnostic says so *)
+Theorem c11_include_same_name_diagnosed :
+  cparse_program w_same_name [T "sub"; T "x.frugal"] = POk (FTree (T "x") empty_frugal [])
+  /\ cparse_program w_same_name [T "x.frugal"]
+     = PErr (T "Include sub/x.frugal: Duplicate file name x: sub/x.frugal is included by way of x.frugal (includes and generated code are named after the file name)").
+Proof. exact include_same_name_diagnosed. Qed.
+Print Assumptions c11_include_same_name_diagnosed.
+
+(** the code as it was: the same program was rejected as 'Circular include: [x x]' *)
+Theorem c11_include_same_name_pinned_refuted :
   pfs_get w_same_name [T "sub"; T "x.frugal"] = Some (FParsed empty_frugal)
-  /\ cparse_program w_same_name [T "sub"; T "x.frugal"] = POk (FTree (T "x") empty_frugal [])
-  /\ cparse_program w_same_name [T "x.frugal"] = PErr (T "Include sub/x.frugal: Circular include: [x x]").
-Proof. exact include_same_name_refuted. Qed.
-Print Assumptions c11_include_same_name_refuted.
+  /\ cparse_program_pinned w_same_name [T "sub"; T "x.frugal"] = POk (FTree (T "x") empty_frugal [])
+  /\ cparse_program_pinned w_same_name [T "x.frugal"] = PErr (T "Include sub/x.frugal: Circular include: [x x]").
+Proof. exact include_same_name_pinned_refuted. Qed.
+Print Assumptions c11_include_same_name_pinned_refuted.
+
+(** two different files of one name which never are on one chain of includes are accepted (so is a
+    file reached along two chains); a file which includes itself under another spelling of its path
+    is a cycle *)
+Example c11_include_paths_examples :
+  (exists t, cparse_program w_off_chain [T "r.frugal"] = POk t)
+  /\ cparse_program w_self_spelled [T "s.frugal"] = PErr (T "Include d/../s.frugal: Circular include: [s s]").
+Proof. exact include_paths_examples. Qed.
 
 Example c11_validation_nonvacuous :
   fs_names_ok ex_fs
